@@ -18,7 +18,7 @@ PROPERTY = "C06"
 
 META = {
     "bounds": {
-        "quick": "all expression trees with <= 2 operators (154 shapes) x 4 renderings x 8 contexts, leaves a..d in [0,2^12), shift amounts s in [0,8); literals: decimal 1-5 digits, 0x + 1-4 hex digits (both cases), 0b + 1-6 bits, all symbolic",
+        "quick": "all expression trees with <= 2 operators (154 shapes) x 4 renderings x 10 contexts (incl. the same text evaluated twice in one scope, and the same expression in a code block spliced twice, with a variable re-assigned in between), leaves a..d in [0,2^12), shift amounts s in [0,8); literals: decimal 1-5 digits, 0x + 1-4 hex digits (both cases), 0b + 1-6 bits, all symbolic",
         "thorough": "trees with <= 3 operators (all) plus a VERIF_SEED-drawn sample of 4- and 5-operator trees; same leaves; literals up to 6/5/8 digits",
     },
     "outside": [
@@ -36,7 +36,7 @@ OPTS = {"quick": {"deadline_s": 300}, "thorough": {"deadline_s": 900}}
 STYLES = ["min", "sp", "full", "wide"]
 # contexts that use the directive lexer accept only some operators
 DIRECTIVE_OPS = {"+", "-", "*", "<<", ">>", "&"}
-CONTEXTS = ["str", "dl", "symbol", "assign", "macro", "if", "operand", "direct"]
+CONTEXTS = ["str", "dl", "symbol", "assign", "macro", "if", "operand", "direct", "reeval", "splice2"]
 
 
 def all_trees(nmax):
@@ -134,7 +134,7 @@ def run(spec, cx):
         t = _tree(spec["trees"][ti])
         text = X.render(t, style)
         names = sorted(set(X.leaves(t)))
-        syms = _syms(cx, names)
+        syms = _syms(cx, names, enumerate_shift=X.uses(t, {"*"}) and X.uses(t, {"<<", ">>"}) and X.count_ops(t) > 2)
         if ctx != "str" and X.uses(t, {"|", "~"}):
             return ("skipped-context", ti, style, ctx)  # the directive lexer has no | and ~
         if ctx == "str":
@@ -155,6 +155,12 @@ def run(spec, cx):
             src = f"*=0x8000\n.macro m(q) {{\n.dl q\n.dw q\n}}\nm({text})\n"
         elif ctx == "if":
             src = f"*=0x8000\n.if {text} {{\n.db 1\n}} else {{\n.db 0\n}}\n"
+        elif ctx == "reeval":
+            # the same text evaluated twice in one scope, a variable it reads re-assigned in between
+            src = f"*=0x8000\nq := {text}\na := a + 1\nr := {text}\n.dl q\n.dw r\n"
+        elif ctx == "splice2":
+            # the same source expression inside a code block that a macro splices twice, a variable re-assigned in between
+            src = f"*=0x8000\n.macro em(v) {{\n.dl v\n}}\n.macro tw(step) {{\n{{{{step}}}}\n{{{{step}}}}\n}}\ntw({{\nem({text})\na := a + 1\n}})\n"
         elif ctx == "direct":
             # operand without '#': an operand that starts with a parenthesised group is still an expression
             src = f"*=0x8000\nldx.w {text}\n"
@@ -168,6 +174,10 @@ def run(spec, cx):
 
             try:
                 V = eval_expression_str(text, new_program(syms=syms).resolver)
+                if ctx in ("reeval", "splice2"):
+                    syms2 = dict(syms)
+                    syms2["a"] = syms["a"] + 1
+                    V = (V, eval_expression_str(text, new_program(syms=syms2).resolver))
             except Exception:  # noqa: BLE001
                 V = None
             return ("bytes", ti, style, ctx, [(a, b) for a, b in r[1]], V)
@@ -244,6 +254,9 @@ def check(spec, cx, out):
         blocks, V = out[4], out[5]
         if len(blocks) != 1 or V is None:
             return [("value", z3.Not(defined))]
+        V2 = None
+        if ctx in ("reeval", "splice2"):
+            V, V2 = V
         res = [("value", z3.Implies(defined, bv(V) == val))]
         bs = blist(blocks[0][1])
         if ctx == "if":
@@ -252,7 +265,11 @@ def check(spec, cx, out):
         if ctx == "direct" and text_starts_with_group_only(t):
             # `ldx.w (expr)` alone is the indirect addressing shape, not an expression: no claim here
             return res
-        if ctx == "direct":
+        if ctx == "reeval":
+            exp = blist(_pack(cx, "<HB", V & 0xFFFF, (V >> 16) & 0xFF)) + blist(_pack(cx, "<H", V2 & 0xFFFF))
+        elif ctx == "splice2":
+            exp = blist(_pack(cx, "<HB", V & 0xFFFF, (V >> 16) & 0xFF)) + blist(_pack(cx, "<HB", V2 & 0xFFFF, (V2 >> 16) & 0xFF))
+        elif ctx == "direct":
             exp = [B(0xAE)] + blist(_pack(cx, "<H", V & 0xFFFF))
         elif ctx == "operand":
             exp = [B(0xA9)] + blist(_pack(cx, "<H", V & 0xFFFF))
